@@ -168,6 +168,16 @@ def execute(st):
 
 
 def _nc(st):
+    try:
+        return _nc_inner(st)
+    except (ValueError, NotImplementedError) as e:
+        if yrun.raised_explicitly(e) and "LeProHQ" in (yrun.innermost_site(e.__traceback__) or ""):
+            # explicit rejection by the massive library while a kernel is built or evaluated (LeProHQ: the high-virtuality limit of x2g1 at O(a_s^2) is not known)
+            return {"violations": [], "nontrivial": False, "outcome": "rejected:" + type(e).__name__, "transitions": 1, "info": {"n_rejected": 1}}
+        raise
+
+
+def _nc_inner(st):
     import yadism.coefficient_functions as cf
     from yadism.coefficient_functions.heavy import partonic_channel as hpc
 
